@@ -315,8 +315,15 @@ impl Read for FaultReader {
                     ctl.pause(t, true);
                 }
             }
-            // fill until a whole frame, a marker or EOF is there
-            while !self.eof && !self.pending.iter().any(|b| *b == 0 || *b == MARK_IOERR || *b == MARK_RESET) {
+            // gated: fill until a whole frame, a marker or EOF is there (one frame per permission);
+            // otherwise hand on whatever one read of the socket delivers, so that the pieces in which
+            // the peer wrote a reply reach the library's own buffering unchanged
+            let mut first = true;
+            while !self.eof
+                && (first || self.gate.is_some())
+                && !self.pending.iter().any(|b| *b == 0 || *b == MARK_IOERR || *b == MARK_RESET)
+            {
+                first = false;
                 let mut tmp = [0u8; 4096];
                 match self.inner.read(&mut tmp) {
                     Ok(0) => self.eof = true,
@@ -407,6 +414,44 @@ pub fn rig(wbudget: Option<usize>, gate: Option<Arc<Ctl>>) -> Rig {
 struct Group {
     close: bool,
     bytes: Vec<u8>,
+    /// offsets at which the server pauses between two writes
+    cuts: Vec<usize>,
+}
+
+/// write `bytes` in the pieces given by `cuts`, with a pause between two pieces
+pub fn write_in_pieces(w: &mut dyn Write, bytes: &[u8], cuts: &[usize]) {
+    let mut cs: Vec<usize> = cuts.iter().cloned().filter(|c| *c > 0 && *c < bytes.len()).collect();
+    cs.sort();
+    cs.dedup();
+    let mut prev = 0;
+    for c in cs {
+        let _ = w.write_all(&bytes[prev..c]);
+        let _ = w.flush();
+        std::thread::sleep(Duration::from_millis(12));
+        prev = c;
+    }
+    let _ = w.write_all(&bytes[prev..]);
+    let _ = w.flush();
+}
+
+/// offsets right before UTF-8 continuation bytes: a cut there splits a character
+pub fn char_splitting_offsets(bytes: &[u8]) -> Vec<usize> {
+    bytes.iter().enumerate().filter(|(_, b)| (**b & 0xC0) == 0x80).map(|(i, _)| i).collect()
+}
+
+/// a reply (JSON text) whose multi-byte characters start at byte offset `at` of the text
+pub fn big_reply_text(cont: Option<bool>, at: usize) -> Vec<u8> {
+    let head = match cont {
+        Some(c) => format!("{{\"continues\":{},\"parameters\":{{\"pad\":\"", c),
+        None => "{\"parameters\":{\"pad\":\"".to_string(),
+    };
+    let mut s = head.clone();
+    while s.len() < at {
+        s.push('x');
+    }
+    s.push_str("€€é😀");
+    s.push_str("\",\"tail\":\"ü\"}}");
+    s.into_bytes()
 }
 
 fn parse_groups(s: &Sx) -> Vec<Group> {
@@ -415,9 +460,11 @@ fn parse_groups(s: &Sx) -> Vec<Group> {
         let gl = g.as_list().unwrap();
         let close = gl[1].as_atom() == Some("t");
         let mut bytes = Vec::new();
+        let mut cuts = Vec::new();
         for f in &gl[2..] {
             let fl = f.as_list().unwrap();
             match fl[0].as_atom().unwrap() {
+                "cuts" => cuts = fl[1..].iter().filter_map(|c| c.as_usize()).collect(),
                 "f" => {
                     bytes.extend_from_slice(&fl[1].as_bytes().unwrap());
                     bytes.push(0);
@@ -427,7 +474,7 @@ fn parse_groups(s: &Sx) -> Vec<Group> {
                 other => panic!("frame kind {}", other),
             }
         }
-        out.push(Group { close, bytes });
+        out.push(Group { close, bytes, cuts });
     }
     out
 }
@@ -442,8 +489,7 @@ fn scripted_server(sv: UnixStream, groups: Vec<Group>) -> std::thread::JoinHandl
         let mut send = |n: usize, closed: &mut bool| {
             if let Some(g) = groups.get(n) {
                 if !*closed {
-                    let _ = w.write_all(&g.bytes);
-                    let _ = w.flush();
+                    write_in_pieces(&mut w, &g.bytes, &g.cuts);
                     if g.close {
                         let _ = w.shutdown(Shutdown::Write);
                         *closed = true;
@@ -1125,6 +1171,25 @@ fn annotate_typed(frame: &Sx) -> Sx {
     }
 }
 
+/// the bytes a list of frames puts on the wire
+pub fn frames_to_bytes(frames: &[Sx]) -> Vec<u8> {
+    let mut bytes = Vec::new();
+    for f in frames {
+        if let Some(fl) = f.as_list() {
+            match fl[0].as_atom() {
+                Some("f") => {
+                    bytes.extend_from_slice(&fl[1].as_bytes().unwrap());
+                    bytes.push(0);
+                }
+                Some("part") => bytes.extend_from_slice(&fl[1].as_bytes().unwrap()),
+                Some("ioerr") => bytes.push(if fl[1].as_atom() == Some("t") { MARK_RESET } else { MARK_IOERR }),
+                _ => {}
+            }
+        }
+    }
+    bytes
+}
+
 pub fn part_sx(bytes: &[u8]) -> Sx {
     let d = if bytes.is_empty() { sx::atom("bad") } else { dec_sx(&bytes[..bytes.len() - 1]) };
     sx::tagged("part", vec![sx::bs(bytes), d])
@@ -1268,6 +1333,34 @@ impl SeqGen {
                 self.tags.push("script:extra-final".into());
             }
             _ => {}
+        }
+        // how the bytes travel: now and then a large reply whose multi-byte characters sit at the 8 KiB
+        // buffer boundary, now and then a group written in pieces that split a character
+        if !self.typed && rng.chance(1, 30) {
+            let first_ok = frames.first().and_then(|f| f.as_list().map(|l| l.to_vec())).filter(|l| {
+                l[0].as_atom() == Some("f") && l[2].as_list().map(|d| d.len() == 4 && d[2].as_atom() == Some("-")).unwrap_or(false)
+            });
+            if let Some(l) = first_ok {
+                let cont = l[2].as_list().unwrap()[1].as_opt_bool().unwrap_or(None);
+                let at = *rng.pick(&[8189usize, 8190, 8191, 8192, 8193, 16382, 16383, 16384, 300]);
+                frames[0] = frame_sx(&big_reply_text(cont, at));
+                self.tags.push("script:large-reply-multibyte-at-buffer-boundary".into());
+            }
+        }
+        if rng.chance(1, 20) {
+            let bytes = frames_to_bytes(&frames);
+            let mut offs = char_splitting_offsets(&bytes);
+            if offs.is_empty() && !bytes.is_empty() {
+                offs.push(rng.below(bytes.len()));
+            }
+            if !offs.is_empty() {
+                let mut cuts = vec![sx::atom("cuts")];
+                for _ in 0..rng.range(1, 2) {
+                    cuts.push(sx::nat(*rng.pick(&offs)));
+                }
+                frames.push(sx::list(cuts));
+                self.tags.push("script:written-in-pieces".into());
+            }
         }
         self.groups.push(Self::group(close, frames));
         k
